@@ -539,10 +539,34 @@ def r166(ctx, fx, rid_name="R16.6"):
         ctx.fail_closed(rid, "fewer than 2 calls that feed the usage database found in CodegenContext (%d)" % n)
 
 
+def r167(ctx, fx):
+    rid = ctx.rule("R16.7", "a symbol's place in the symbol table is the key of what the language server knows about it (definition, usages), and the table hands the place of a "
+                   "removed symbol to the next one inserted: while code is generated no symbol is taken out of the table (`SymbolTable::remove` / `remove_all` are called "
+                   "by no method of the code generator) — the `index` of a loop that is removed after its iteration gives its place, and its references, to the `index` of "
+                   "the next loop")
+    n = 0
+    hits = []
+    for f in sorted(fx.all_fns("mos_core"), key=lambda f: f.path):
+        if not f.blocks or "::tests::" in f.path or not f.path.startswith("mos_core::codegen::CodegenContext::"):
+            continue
+        n += 1
+        for bi, t in lib.calls(f):
+            p = lib.norm(lib.callee(t)[0] or "")
+            if p.endswith(("SymbolTable::remove", "SymbolTable::remove_all")):
+                hits.append((f, t.get("line")))
+    ctx.inst(rid, "codegen|no-symbol-removed", sample={"methods_of_the_code_generator": n, "removals": [(f.path.rsplit("::", 1)[-1], ln) for f, ln in hits]})
+    if n < 40:
+        ctx.fail_closed(rid, "fewer than 40 methods of the code generator found (%d)" % n)
+    for f, ln in hits:
+        ctx.finding(rid, "%s|symbol-removed" % f.path, "%s takes a symbol out of the table while code is generated: its place goes to the next symbol inserted, and go-to-definition, "
+                    "references and highlights of the two are mixed up or lost" % f.path.rsplit("::", 1)[-1], "%s:%s" % (f.file, ln))
+
+
 def run(ctx):
     fx = ctx.facts
     cg = lib.CallGraph(fx)
     r165(ctx, fx)
+    r167(ctx, fx)
     r166(ctx, fx)
     r161(ctx, fx)
     r162(ctx, fx, cg)
